@@ -24,9 +24,9 @@ import (
 // C17 — name and number trees are faithful, ordered dictionaries.
 
 func init() {
-	addRun("C17", "key sets for name trees (random bytes, shared prefixes, prefix chains, empty key, non-ASCII, long keys) and number trees (dense, sparse, negative, int64 extremes) of sizes 0..10000 crossing 64 and 4096 (quick: up to 4097 once, mostly <= 600), written with Write/WriteMap, values of six object kinds; probes: present keys (incl. leaf boundaries), absent keys between neighbours, below the minimum, above the maximum; plus unsorted/duplicate sequences; every size class also written while a stream is open on the pdf.Writer (all Puts queued until the stream closes, with and without other queued objects), then every present key looked up; a fixed corpus of keys a text decoder would alter (byte-order marks FE FF / FF FE / EF BB BF, UTF-16 text together with the text it spells, NUL, PDFDocEncoding specials 18-1F 7F-9F AD, parentheses, backslash, line ends, every single byte) and a generator mode for them; on every tree one FromFile object serves Lookups and a nested All() while its All() is suspended, and two of its iterators advance alternately. A case is non-trivial when it has at least two keys; distinct by kind, key sequence and probes.", runC17)
+	addRun("C17", "key sets for name trees (random bytes, shared prefixes, prefix chains, empty key, non-ASCII, long keys) and number trees (dense, sparse, negative, int64 extremes) of sizes 0..10000 crossing 64 and 4096 (quick: up to 4097 once, mostly <= 600), written with Write/WriteMap, values of nine kinds incl. the null object and a nil Array / nil Dict (written as null) for a third of the keys of every second tree — Lookup is compared as the pair (found, value): present with a null value is not absent, for both readers, All() and Size count the key; probes: present keys (incl. leaf boundaries), absent keys between neighbours, below the minimum, above the maximum; plus unsorted/duplicate sequences; every size class also written while a stream is open on the pdf.Writer (all Puts queued until the stream closes, with and without other queued objects), then every present key looked up; a fixed corpus of keys a text decoder would alter (byte-order marks FE FF / FF FE / EF BB BF, UTF-16 text together with the text it spells, NUL, PDFDocEncoding specials 18-1F 7F-9F AD, parentheses, backslash, line ends, every single byte) and a generator mode for them; on every tree one FromFile object serves Lookups and a nested All() while its All() is suspended, and two of its iterators advance alternately. A case is non-trivial when it has at least two keys; distinct by kind, key sequence and probes.", runC17)
 	addReplay("C17", "tree", replayC17)
-	addRun("C17", "histories on ONE in-memory tree value (InMemory.Data is exported and mutable): random sequences of insert, replace, delete, delete-one-insert-another (same size), clear (in place / new map), All(), Lookup and Embed-then-extract over a small key pool (sometimes 60..200 keys); after every step All() and Lookup must show exactly the current map, the written tree likewise. Non-trivial from four steps; distinct by the step string.", runC17History)
+	addRun("C17", "histories on ONE in-memory tree value (InMemory.Data is exported and mutable): random sequences of insert, replace, delete, delete-one-insert-another (same size), clear (in place / new map), All(), Lookup and Embed-then-extract over a small key pool (sometimes 60..200 keys); every seventh value is a null value (nil, nil Array, nil Dict); after every step All() and Lookup must show exactly the current map (a key with a null value is present), the written tree likewise. Non-trivial from four steps; distinct by the step string.", runC17History)
 	addReplay("C17", "history", replayC17History)
 }
 
@@ -165,9 +165,12 @@ func trsVal(i, style int) pdf.Object {
 	k := 0
 	switch style {
 	case 1:
-		k = i % 6
+		k = i % 9
 	case 2: // no bare references (they mean nothing in another file)
-		k = i % 5
+		k = i % 8
+		if k >= 5 {
+			k++
+		}
 	}
 	switch k {
 	case 1:
@@ -180,8 +183,47 @@ func trsVal(i, style int) pdf.Object {
 		return pdf.Name("v" + strconv.Itoa(i))
 	case 5:
 		return pdf.NewReference(uint32(i+1), 0)
+	case 6: // the null object: the key is present, its value is null
+		return nil
+	case 7: // a nil Array / nil Dict is written as null
+		return pdf.Array(nil)
+	case 8:
+		return pdf.Dict(nil)
 	}
 	return pdf.Integer(i)
+}
+
+// trsIsNull: the null object, in any of the forms Go code can hand it over.
+func trsIsNull(o pdf.Object) bool {
+	switch x := o.(type) {
+	case nil:
+		return true
+	case pdf.Array:
+		return x == nil
+	case pdf.Dict:
+		return x == nil
+	}
+	return false
+}
+
+// trsSame: the value read is the value stored.
+func trsSame(got, want pdf.Object) bool {
+	if trsIsNull(want) {
+		return trsIsNull(got)
+	}
+	return !trsIsNull(got) && pdf.Equal(got, want)
+}
+
+// trsValIdxAt recovers the entry number from a value; a null value carries none, it counts as
+// entry `exp` when that entry was stored as null (exp < 0: the key is not in the map).
+func trsValIdxAt(o pdf.Object, exp, style int) (int, bool) {
+	if trsIsNull(o) {
+		if exp >= 0 && trsIsNull(trsVal(exp, style)) {
+			return exp, true
+		}
+		return 0, false
+	}
+	return trsValIdx(o)
 }
 
 func trsValIdx(o pdf.Object) (int, bool) {
@@ -387,11 +429,16 @@ func trsWriteFile[K cmp.Ordered](api *trsTreeAPI[K], tc *trsTreeCase[K]) (data [
 	return buf.Bytes(), root, others, streamRef, werr
 }
 
-func trsLookupTok(o pdf.Object, err error) string {
+// trsLookupTok prints Lookup's result as the PAIR (found, value): a present key whose value is
+// null is `f<entry>`, an absent key for which (nil, nil) came back is `fnull`.
+func trsLookupTok(o pdf.Object, err error, exp, style int) string {
 	switch {
 	case err == nil:
-		if i, ok := trsValIdx(o); ok {
+		if i, ok := trsValIdxAt(o, exp, style); ok {
 			return "f" + strconv.Itoa(i)
+		}
+		if trsIsNull(o) {
+			return "fnull"
 		}
 		return "f?"
 	case errors.Is(err, nametree.ErrKeyNotFound):
@@ -657,7 +704,11 @@ func trsRunCase[K cmp.Ordered](api *trsTreeAPI[K], tc *trsTreeCase[K]) (implLine
 		h := uint64(1)
 		bad := false
 		for k, v := range t.All() {
-			vi, ok := trsValIdx(v)
+			exp := -1
+			if e, present := idx[k]; present {
+				exp = e
+			}
+			vi, ok := trsValIdxAt(v, exp, tc.vstyle())
 			if !ok {
 				vi = -1
 			}
@@ -665,7 +716,7 @@ func trsRunCase[K cmp.Ordered](api *trsTreeAPI[K], tc *trsTreeCase[K]) (implLine
 				if i >= len(want) || k != want[i] {
 					fail("all-order", "%s.All() entry %d has key %s", name, i, api.tok(k))
 					bad = true
-				} else if !ok || vi != idx[k] || !pdf.Equal(v, trsVal(idx[k], tc.vstyle())) {
+				} else if !ok || vi != idx[k] || !trsSame(v, trsVal(idx[k], tc.vstyle())) {
 					fail("all-value", "%s.All() key %s has value %v, want %v", name, api.tok(k), v, trsVal(idx[k], tc.vstyle()))
 					bad = true
 				}
@@ -697,15 +748,19 @@ func trsRunCase[K cmp.Ordered](api *trsTreeAPI[K], tc *trsTreeCase[K]) (implLine
 	for _, p := range tc.probes {
 		vs, es := stream.Lookup(p)
 		vm, em := mem.Lookup(p)
-		ts, tm := trsLookupTok(vs, es), trsLookupTok(vm, em)
+		exp := -1
+		if e, present := idx[p]; present {
+			exp = e
+		}
+		ts, tm := trsLookupTok(vs, es, exp, tc.vstyle()), trsLookupTok(vm, em, exp, tc.vstyle())
 		ss = append(ss, ts)
 		ms = append(ms, tm)
 		if i, present := idx[p]; present {
 			wantV := trsVal(i, tc.vstyle())
-			if es != nil || !pdf.Equal(vs, wantV) {
+			if es != nil || !trsSame(vs, wantV) {
 				fail("lookup-present", "FromFile.Lookup(%s) = %v, %v; want %v", api.tok(p), vs, es, wantV)
 			}
-			if em != nil || !pdf.Equal(vm, wantV) {
+			if em != nil || !trsSame(vm, wantV) {
 				fail("lookup-present", "InMemory.Lookup(%s) = %v, %v; want %v", api.tok(p), vm, em, wantV)
 			}
 		} else {
@@ -1009,7 +1064,7 @@ func trsInterleave[K cmp.Ordered](api *trsTreeAPI[K], stream, mem trsTreeReader[
 	checkLookup := func(where string, k K) {
 		v, err := stream.Lookup(k)
 		if i, present := idx[k]; present {
-			if err != nil || !pdf.Equal(v, trsVal(i, tc.vstyle())) {
+			if err != nil || !trsSame(v, trsVal(i, tc.vstyle())) {
 				fail("interleave-lookup", "Lookup(%s) %s = %v, %v; want %v", api.tok(k), where, v, err, trsVal(i, tc.vstyle()))
 			}
 		} else if !errors.Is(err, nametree.ErrKeyNotFound) {
@@ -1019,7 +1074,7 @@ func trsInterleave[K cmp.Ordered](api *trsTreeAPI[K], stream, mem trsTreeReader[
 	i := 0
 	bad := false
 	for k, v := range stream.All() {
-		if !bad && (i >= n || k != want[i] || !pdf.Equal(v, trsVal(idx[k], tc.vstyle()))) {
+		if !bad && (i >= n || k != want[i] || !trsSame(v, trsVal(idx[k], tc.vstyle()))) {
 			fail("interleave-all", "All() with interleaved calls: entry %d is %s = %v (want key %s)", i, api.tok(k), v, api.tok(want[min(i, n-1)]))
 			bad = true
 		}
@@ -1076,7 +1131,7 @@ func trsInterleave[K cmp.Ordered](api *trsTreeAPI[K], stream, mem trsTreeReader[
 			}
 			return
 		}
-		if *pos >= n || k != want[*pos] || !pdf.Equal(v, trsVal(idx[k], tc.vstyle())) {
+		if *pos >= n || k != want[*pos] || !trsSame(v, trsVal(idx[k], tc.vstyle())) {
 			fail("interleave-all", "iterator %s: entry %d is %s = %v", name, *pos, api.tok(k), v)
 		}
 		*pos++
@@ -1126,6 +1181,35 @@ func trsInterleave[K cmp.Ordered](api *trsTreeAPI[K], stream, mem trsTreeReader[
 // back with both readers.  After every operation All() and a Lookup of the key just touched
 // must show exactly the current content of the map; nothing may depend on what the value
 // was asked before.
+// trsHistVal: the object that value number v of a history stands for: every seventh number is a
+// null value (nil, a nil Array, a nil Dict in turn); the key is present all the same.
+func trsHistVal(v int) pdf.Object {
+	if v%7 == 3 {
+		switch v % 21 {
+		case 3:
+			return nil
+		case 10:
+			return pdf.Array(nil)
+		default:
+			return pdf.Dict(nil)
+		}
+	}
+	return pdf.Integer(v)
+}
+
+// trsHistNum: the value number an object read back stands for, given the number the map holds
+// for the key (exp < 0: the key is not in the map).
+func trsHistNum(o pdf.Object, exp int) (int, bool) {
+	if trsIsNull(o) {
+		if exp >= 0 && trsIsNull(trsHistVal(exp)) {
+			return exp, true
+		}
+		return 0, false
+	}
+	vi, ok := o.(pdf.Integer)
+	return int(vi), ok
+}
+
 func trsRunHistory[K cmp.Ordered](api *trsTreeAPI[K], ops []string) (implLine string, fails []trsFail) {
 	defer func() {
 		if r := recover(); r != nil {
@@ -1156,8 +1240,12 @@ func trsRunHistory[K cmp.Ordered](api *trsTreeAPI[K], ops []string) (implLine st
 		h := uint64(1)
 		bad := false
 		for k, v := range t.All() {
-			vi, ok := v.(pdf.Integer)
-			if !bad && (i >= len(want) || k != want[i] || !ok || int(vi) != cur[k]) {
+			exp := -1
+			if e, present := cur[k]; present {
+				exp = e
+			}
+			vi, ok := trsHistNum(v, exp)
+			if !bad && (i >= len(want) || k != want[i] || !ok || vi != cur[k]) {
 				fail(key, "%s: entry %d is %s = %v; the map holds %d entries", where, i, api.tok(k), v, len(want))
 				bad = true
 			}
@@ -1171,14 +1259,30 @@ func trsRunHistory[K cmp.Ordered](api *trsTreeAPI[K], ops []string) (implLine st
 	}
 	lookup := func(where string, k K) string {
 		v, err := mh.reader.Lookup(k)
+		exp := -1
 		if want, present := cur[k]; present {
-			if vi, ok := v.(pdf.Integer); err != nil || !ok || int(vi) != want {
-				fail("history-lookup", "%s: Lookup(%s) = %v, %v; the map holds %d", where, api.tok(k), v, err, want)
+			exp = want
+			if vi, ok := trsHistNum(v, want); err != nil || !ok || vi != want {
+				fail("history-lookup", "%s: Lookup(%s) = %v, %v; the map holds value number %d (%v)", where, api.tok(k), v, err, want, trsHistVal(want))
 			}
 		} else if !errors.Is(err, nametree.ErrKeyNotFound) {
 			fail("history-lookup", "%s: Lookup(%s) of a key that is not in the map = %v, %v", where, api.tok(k), v, err)
 		}
-		return trsLookupTok(v, err)
+		switch {
+		case err == nil:
+			if vi, ok := trsHistNum(v, exp); ok {
+				return "f" + strconv.Itoa(vi)
+			}
+			if trsIsNull(v) {
+				return "fnull"
+			}
+			return "f?"
+		case errors.Is(err, nametree.ErrKeyNotFound):
+			return "n"
+		case pdf.IsMalformed(err):
+			return "d"
+		}
+		return "e"
 	}
 	var out []string
 	quiet := false // `q` as first operation: look at the value only where the history says so
@@ -1200,7 +1304,7 @@ func trsRunHistory[K cmp.Ordered](api *trsTreeAPI[K], ops []string) (implLine st
 			}
 			delete(mh.data(), kd)
 			delete(cur, kd)
-			mh.data()[ki] = pdf.Integer(v)
+			mh.data()[ki] = trsHistVal(v)
 			cur[ki] = v
 			out = append(out, ".")
 			if !quiet {
@@ -1214,7 +1318,7 @@ func trsRunHistory[K cmp.Ordered](api *trsTreeAPI[K], ops []string) (implLine st
 			if err != nil || err2 != nil {
 				panic("harness: bad history op " + op)
 			}
-			mh.data()[k] = pdf.Integer(v)
+			mh.data()[k] = trsHistVal(v)
 			cur[k] = v
 			out = append(out, ".")
 			if !quiet {
